@@ -328,11 +328,21 @@ pub fn format_family(max_n: usize, stride: usize) -> Vec<(Facts, String)> {
             base.version = (2024, 2, 29);
             let ids: Vec<u32> = base.terms.iter().map(|t| t.id).collect();
             let last = n - 1;
-            for flags in 0..4 {
+            for flags in 0..5 {
                 let mut f = base.clone();
                 let mut what = String::new();
                 match flags {
                     0 => what.push_str("plain"),
+                    4 => {
+                        // replacement chain: last -> previous -> first (the stated replacement is the direct one)
+                        if n < 3 || ids[last] == 1 || ids[last] == 118 {
+                            continue;
+                        }
+                        f.terms[last].obsolete = true;
+                        f.terms[last].replacement = Some(ids[last - 1]);
+                        f.terms[last - 1].replacement = Some(ids[0]);
+                        what.push_str("replacement chain last -> previous -> first");
+                    }
                     1 => {
                         // last term obsolete and replaced by an existing term
                         if ids[last] == 1 || ids[last] == 118 {
@@ -358,7 +368,9 @@ pub fn format_family(max_n: usize, stride: usize) -> Vec<(Facts, String)> {
                         what.push_str("names \"\", x, é, a: b");
                     }
                 }
-                let patterns: Vec<Option<u32>> = if n <= 3 { std::iter::once(None).chain((0..(1u32 << n)).map(Some)).collect() } else { vec![None, Some(0b0001), Some(0b0110), Some(0b1111)] };
+                let patterns: Vec<Option<u32>> = if flags == 4 {
+                    vec![None, Some(0b0110 & ((1 << n) - 1))]
+                } else if n <= 3 { std::iter::once(None).chain((0..(1u32 << n)).map(Some)).collect() } else { vec![None, Some(0b0001), Some(0b0110), Some(0b1111)] };
                 for p in patterns {
                     let mut g = f.clone();
                     let pw = match p {
@@ -542,6 +554,15 @@ pub fn large_family() -> Vec<(Facts, String)> {
             let edges: Vec<(usize, usize)> = (1..n).map(|k| (k, k - 1)).collect();
             out.push(mk(&edges, n, reversed, format!("chain of {n} terms{tag}")));
         }
+        // a deep chain of 300 terms with a side term that is_a node 290 and is_a node 5 (a shortcut to the top):
+        // beyond every 8-bit depth counter (255 / 256 / 257 generations), both id directions
+        {
+            let n = 300usize;
+            let mut edges: Vec<(usize, usize)> = (1..n).map(|k| (k, k - 1)).collect();
+            edges.push((n, 290));
+            edges.push((n, 5));
+            out.push(mk(&edges, n + 1, reversed, format!("deep chain of {n} terms plus a side term below node 290 and node 5{tag}")));
+        }
         // fan-in: one term with m direct parents, all children of HP:118
         for m in [29usize, 30, 31, 32, 40, 300] {
             if m == 300 && reversed {
@@ -628,6 +649,20 @@ pub fn large_family() -> Vec<(Facts, String)> {
         }
     }
     out
+}
+
+/// For shapes too big for all ordered pairs: the positions (in `f.terms`) worth pairing - both ends, the
+/// neighbourhood of the 8-bit depth boundary, the branch points of the deep chain, every 41st term.
+pub fn selected_positions(n: usize) -> Vec<usize> {
+    let mut v: Vec<usize> = vec![0, 1, 2, 5, 6, 7, 30, 31, 32, 33, n / 2, n.saturating_sub(2), n - 1];
+    for k in [254usize, 255, 256, 257, 258, 259, 289, 290, 291] {
+        v.push(k);
+    }
+    v.extend((0..n).step_by(41));
+    v.retain(|k| *k < n);
+    v.sort_unstable();
+    v.dedup();
+    v
 }
 
 /// Supply orders for large fact sets: ascending, descending, rotated by half, even-then-odd, inside-out.
